@@ -287,10 +287,14 @@ type chunkedBody struct {
 	pos    int
 	chunk  int
 	closed bool
+	err    error
 }
 
 func (b *chunkedBody) Read(p []byte) (int, error) {
-	if f := b.w.Yield(b.ctx, "body.Read", fmt.Sprint(b.pos), FBodyCut, FBodyErr, FDisconnect, FCrash); f != nil {
+	if b.err != nil {
+		return 0, b.err // a cut connection stays cut
+	}
+	if f := b.w.Yield(b.ctx, "body.Read", fmt.Sprint(b.pos), FBodyCut, FBodyErr, FBodyTrunc, FDisconnect, FCrash); f != nil {
 		switch f.Kind {
 		case FShutdown:
 			return 0, io.ErrClosedPipe
@@ -305,13 +309,27 @@ func (b *chunkedBody) Read(p []byte) (int, error) {
 				n = len(p)
 			}
 			copy(p, b.data[b.pos:b.pos+n])
+			b.w.noteDelivered(b.ctx, b.pos+n)
 			b.pos = len(b.data)
 			b.data = nil
 			b.w.probe("body_cut")
+			b.err = io.ErrUnexpectedEOF
 			return n, io.ErrUnexpectedEOF
 		case FBodyErr:
 			b.w.probe("body_err")
-			return 0, fmt.Errorf("read tcp: connection reset by peer (injected)")
+			b.w.noteDelivered(b.ctx, b.pos)
+			b.err = fmt.Errorf("read tcp: connection reset by peer (injected)")
+			return 0, b.err
+		case FBodyTrunc:
+			// the body ends early but cleanly (shorter body with correct framing)
+			rem := len(b.data) - b.pos
+			n := 0
+			if rem > 0 {
+				n = f.Arg % (rem + 1)
+			}
+			b.data = b.data[:b.pos+n]
+			b.w.probe("body_trunc")
+			b.w.noteDelivered(b.ctx, len(b.data))
 		}
 	}
 	if b.ctx.Err() != nil {
@@ -362,11 +380,8 @@ func (w *World) Do(inc *Incarnation, opID string, req Request) Response {
 			done <- Response{Status: -1, Panic: err.Error()}
 			return
 		}
-		if req.Chunked <= 0 {
-			hr.ContentLength = int64(len(req.Body))
-		} else {
-			hr.ContentLength = -1
-		}
+		// the client announces the full length (a cut body then ends before it)
+		hr.ContentLength = int64(len(req.Body))
 		for k, v := range req.Header {
 			hr.Header.Set(k, v)
 		}
@@ -412,4 +427,11 @@ func (w *World) Do(inc *Incarnation, opID string, req Request) Response {
 	resp.Invoke = invoke
 	resp.Return = w.Event()
 	return resp
+}
+
+// noteDelivered records how many bytes of a faulted request body reached the server.
+func (w *World) noteDelivered(ctx context.Context, n int) {
+	w.mu.Lock()
+	w.delivered[opIDOf(taskKeyOf(ctx))] = n
+	w.mu.Unlock()
 }
